@@ -2,7 +2,7 @@
    Only statements, closed by [exact lemma], with Print Assumptions beneath.
    Model: model/Entity.v (entityNode.run after fix d657973).  [expand e] is what the
    walker emits (Err for an unknown default status filter / duplicate summary name),
-   [compile e] adds the reference resolution of j5convert. *)
+   [convert e] adds the reference resolution of j5convert. *)
 From Coq Require Import String List NArith Bool Permutation.
 From J5V.lib Require Import Outcome Strcase.
 From J5V.model Require Import Entity EntityClient.
@@ -20,7 +20,7 @@ Definition C17_full_statement : Prop :=
     (* (the user's own object references must name something: user_refs_ok) *)
     /\ (user_refs_ok e (defined cs) = true ->
         closed cs = true
-        /\ (fields_ok e = true -> query_params_ok e = true -> command_params_ok e = true -> compile e = Ok cs))
+        /\ (fields_ok e = true -> query_params_ok e = true -> command_params_ok e = true -> convert e = Ok cs))
     (* the same entity annotation on every part that carries one *)
     /\ Forall (eq (snake_name e)) (psm_entities cs)
     /\ Forall (eq (snake_name e)) (service_entities cs)
@@ -71,12 +71,12 @@ Print Assumptions C17_closed_scalars.
    *_params_ok: every ":name" part of a method path is a request field (visitServiceMethodNode) *)
 Theorem C17_compile_is_expand : forall e,
   (forall fl, user_refs_ok e (defined (expand_with e fl)) = true) ->
-  fields_ok e = true -> query_params_ok e = true -> command_params_ok e = true -> compile e = expand e.
+  fields_ok e = true -> query_params_ok e = true -> command_params_ok e = true -> convert e = expand e.
 Proof. exact compile_expand. Qed.
 Print Assumptions C17_compile_is_expand.
 
 Theorem C17_compile_errors : forall e cs, expand e = Ok cs ->
-  compile e = if user_refs_ok e (defined cs) then
+  convert e = if user_refs_ok e (defined cs) then
                 if fields_ok e then
                   if query_params_ok e && command_params_ok e then Ok cs
                   else Err "missing field in request"
@@ -311,12 +311,12 @@ Print Assumptions C17_legacy_inference_refuted.
 
 (* several entity declarations in one file: the result is the concatenation of the single
    expansions (so every theorem above applies to each part) and is closed as a whole *)
-Theorem C17_file_is_concat : forall es cs, compile_all es = Ok cs ->
-  exists l, Forall2 (fun e c => compile e = Ok c) es l /\ cs = concat l.
+Theorem C17_file_is_concat : forall es cs, convert_all es = Ok cs ->
+  exists l, Forall2 (fun e c => convert e = Ok c) es l /\ cs = concat l.
 Proof. exact compile_all_inv. Qed.
 Print Assumptions C17_file_is_concat.
 
-Theorem C17_file_closed : forall es cs, compile_all es = Ok cs -> closed cs = true.
+Theorem C17_file_closed : forall es cs, convert_all es = Ok cs -> closed cs = true.
 Proof. exact compile_all_closed. Qed.
 Print Assumptions C17_file_closed.
 
@@ -390,7 +390,7 @@ Definition C17_sample : entity :=
        SOneof (bs "Choice") [mkU (bs "a") (KScalar 9 (bs "string")) false false]].
 
 Example C17_example :
-  (exists cs, compile C17_sample = Ok cs /\ length cs = 24%nat)
+  (exists cs, convert C17_sample = Ok cs /\ length cs = 24%nat)
   /\ nth 0 (query_paths C17_sample) [] = bs "/foo/v1/foo_s/q/{foo_id}/{account_id}"
   /\ nth 2 (query_paths C17_sample) [] = bs "/foo/v1/foo_s/q/{foo_id}/{account_id}/events"
   /\ status_values (status_prefix C17_sample) (e_status C17_sample)
